@@ -142,6 +142,30 @@ pub fn run(args: &[String]) -> Outcome
             *log.lock().unwrap() = v;
             expected = vec![1, 7];
         }
+        // tree 1: a one-off reactor fires (its command despawns itself at the root).  tree 2: a system command sends itself an
+        // event (postponed: it is running) and despawns itself: the event can never be delivered, so its payload must be
+        // released by the end of the tree - whatever trees ran before on this world
+        "self_despawn_residue" =>
+        {
+            let l = log.clone();
+            world.react(|rc| rc.once(broadcast::<u32>(), move || { l.lock().unwrap().push(1); }));
+            world.react(|rc| rc.broadcast(0u32));
+            let l2 = log.clone();
+            let cell: Arc<Mutex<Option<SystemCommand>>> = Arc::new(Mutex::new(None));
+            let cc = cell.clone();
+            let x = world.spawn_system_command(move |mut c: Commands| {
+                let me = cc.lock().unwrap().unwrap();
+                l2.lock().unwrap().push(2);
+                c.send_system_event(me, Payload(9));
+                c.entity(*me).despawn();
+            });
+            *cell.lock().unwrap() = Some(x);
+            world.queue_probe(x);
+            let drops = DROPS.load(Ordering::SeqCst);
+            expected = vec![1, 2];
+            extra_ok = drops == 1;
+            note = format!("\"payload_drops_after_second_tree\":{},\"expected_drops\":1", drops);
+        }
         _ => { eprintln!("unknown runner scenario {}", what); std::process::exit(3); }
     }
     let v = log.lock().unwrap().clone();
